@@ -217,6 +217,162 @@ theorem removeLruFrom_inv (s : Slru κ ν) (h : s.Inv) :
       have lf := last_facts _ _ hl ndq
       constructor <;> simp only <;> first | assumption | omega | grind
 
+/-- a key held in one of the two segments -/
+def Held (s : Slru κ ν) (x : κ) : Prop := x ∈ keys s.prob.items ∨ x ∈ keys s.prot.items
+
+theorem promote_held (s s' : Slru κ ν) (k : κ) (w : Option ν) (old : ν) (h : s.Inv)
+    (hf : find k s.prob.items = some old) (hp : s.promote k w = .ok (some old, s')) :
+    ∀ x, Held s' x ↔ Held s x := by
+  have ef := erase_facts _ k old hf h.ndp
+  rcases promote_spec s k w old h hf with ⟨_, hp'⟩ | ⟨_, dem, hd, hp'⟩
+  · rw [hp'] at hp; injection hp with hp; injection hp with _ hp; subst hp
+    intro x; unfold Held; simp only [keys_cons, List.mem_cons]
+    have := ef.2.2.2.1 x
+    constructor
+    · rintro (hx | hx | hx)
+      · exact Or.inl (this.1 hx).1
+      · subst hx; exact Or.inl ef.1
+      · exact Or.inr hx
+    · rintro (hx | hx)
+      · by_cases hxk : x = k
+        · exact Or.inr (Or.inl hxk)
+        · exact Or.inl (this.2 ⟨hx, hxk⟩)
+      · exact Or.inr (Or.inr hx)
+  · rw [hp'] at hp; injection hp with hp; injection hp with _ hp; subst hp
+    have lf := last_facts _ _ hd h.ndq
+    intro x; unfold Held; simp only [keys_cons, keys_cons', List.mem_cons]
+    have := ef.2.2.2.1 x
+    constructor
+    · rintro ((hx | hx) | hx | hx)
+      · subst hx; exact Or.inr lf.1
+      · exact Or.inl (this.1 hx).1
+      · subst hx; exact Or.inl ef.1
+      · exact Or.inr (lf.2.2.2.1 x hx)
+    · rintro (hx | hx)
+      · by_cases hxk : x = k
+        · exact Or.inr (Or.inl hxk)
+        · exact Or.inl (Or.inr (this.2 ⟨hx, hxk⟩))
+      · rcases lf.2.2.2.2.2 x hx with hx' | hx'
+        · exact Or.inl (Or.inl hx')
+        · exact Or.inr (Or.inr hx')
+
+/-- `put` introduces no key but `k` -/
+theorem put_held (s s' : Slru κ ν) (k : κ) (v : ν) (r : PutResult κ ν) (d : List (Obj κ ν)) (h : s.Inv)
+    (hp : s.put k v = .ok (r, s', d)) : (∀ x, Held s' x → x = k ∨ Held s x) ∧ Held s' k := by
+  unfold Slru.put at hp
+  cases hq : find k s.prot.items with
+  | some old =>
+    simp only [hq] at hp; injection hp with hp; injection hp with _ hp; injection hp with hp _; subst hp
+    refine ⟨?_, Or.inr (by simp [RawLru.update, use])⟩
+    intro x hx; unfold Held at hx ⊢
+    simp only [RawLru.update, use, keys_cons, List.mem_cons] at hx
+    rcases hx with hx | hx | hx
+    · exact Or.inr (Or.inl hx)
+    · exact Or.inl hx
+    · exact Or.inr (Or.inr (keys_erase_subset k x _ hx))
+  | none =>
+    simp only [hq] at hp
+    cases hpf : find k s.prob.items with
+    | some old =>
+      obtain ⟨s1, hpr, _, _⟩ := promote_inv s k (some v) old h hpf
+      simp only [RawLru.contains, hpf, Option.isSome_some, if_true, hpr] at hp
+      injection hp with hp; injection hp with _ hp; injection hp with hp _; subst hp
+      have hh := promote_held s s1 k (some v) old h hpf hpr
+      exact ⟨fun x hx => Or.inr ((hh x).1 hx), (hh k).2 (Or.inl (find_some_mem k old _ hpf))⟩
+    | none =>
+      simp only [RawLru.contains, hpf, Option.isSome_none, Bool.false_eq_true, if_false] at hp
+      cases hput : s.prob.put k v with
+      | error f => simp [hput] at hp
+      | ok res =>
+        obtain ⟨c', r', e⟩ := res
+        simp only [hput] at hp
+        injection hp with hp; injection hp with _ hp; injection hp with hp _; subst hp
+        have hk := RawLru.put_keys s.prob c' k v r' e ⟨h.ndp, h.bp⟩ hput
+        refine ⟨?_, Or.inl (hk.1 (by have := h.pp; omega))⟩
+        intro x hx; unfold Held at hx ⊢; simp only at hx
+        rcases hx with hx | hx
+        · rcases hk.2 x hx with hx' | hx'
+          · exact Or.inl hx'
+          · exact Or.inr (Or.inl hx')
+        · exact Or.inr (Or.inr hx)
+
+theorem getMut_held (s s' : Slru κ ν) (k : κ) (w : Option ν) (r : Option ν) (h : s.Inv)
+    (hp : s.getMut k w = .ok (r, s')) : ∀ x, Held s' x ↔ Held s x := by
+  unfold Slru.getMut RawLru.getMut at hp
+  cases hq : find k s.prot.items with
+  | some old =>
+    simp only [hq] at hp; injection hp with hp; injection hp with _ hp; subst hp
+    intro x; unfold Held; simp only [use, keys_cons, List.mem_cons]
+    have := mem_keys_erase k x s.prot.items h.ndq
+    constructor
+    · rintro (hx | hx | hx)
+      · exact Or.inl hx
+      · subst hx; exact Or.inr (find_some_mem _ old _ hq)
+      · exact Or.inr (this.1 hx).1
+    · rintro (hx | hx)
+      · exact Or.inl hx
+      · by_cases hxk : x = k
+        · exact Or.inr (Or.inl hxk)
+        · exact Or.inr (Or.inr (this.2 ⟨hx, hxk⟩))
+  | none =>
+    simp only [hq] at hp
+    cases hpf : find k s.prob.items with
+    | none => simp only [hpf] at hp; injection hp with hp; injection hp with _ hp; subst hp; intro x; rfl
+    | some old =>
+      simp only [hpf] at hp
+      obtain ⟨s1, hpr, _, _⟩ := promote_inv s k w old h hpf
+      rw [hpr] at hp; injection hp with hp; injection hp with _ hp; subst hp
+      exact promote_held s s1 k w old h hpf hpr
+
+theorem remove_held (s : Slru κ ν) (k : κ) (h : s.Inv) : ∀ x, Held (s.remove k).1 x → Held s x ∧ x ≠ k := by
+  unfold Slru.remove RawLru.remove
+  cases hp : find k s.prob.items with
+  | some v =>
+    intro x hx; unfold Held at hx ⊢; simp only at hx
+    have hkq : k ∉ keys s.prot.items := h.disj k (find_some_mem k v _ hp)
+    rcases hx with hx | hx
+    · have := (mem_keys_erase k x _ h.ndp).1 hx; exact ⟨Or.inl this.1, this.2⟩
+    · exact ⟨Or.inr hx, fun hc => hkq (hc ▸ hx)⟩
+  | none =>
+    have hkp := (find_none_iff k _).1 hp
+    cases hq : find k s.prot.items with
+    | none =>
+      have hkq := (find_none_iff k _).1 hq
+      intro x hx; unfold Held at hx; simp only at hx
+      refine ⟨hx, fun hc => ?_⟩
+      subst hc; rcases hx with hx | hx
+      · exact hkp hx
+      · exact hkq hx
+    | some v =>
+      intro x hx; unfold Held at hx ⊢; simp only at hx
+      rcases hx with hx | hx
+      · exact ⟨Or.inl hx, fun hc => hkp (hc ▸ hx)⟩
+      · have := (mem_keys_erase k x _ h.ndq).1 hx; exact ⟨Or.inr this.1, this.2⟩
+
+theorem putProtected_held (s s' : Slru κ ν) (k : κ) (v : ν) (r : PutResult κ ν) (d : List (Obj κ ν)) (h : s.Inv)
+    (hp : s.putProtected k v = .ok (r, s', d)) :
+    (∀ x, x ∈ keys s'.prob.items → x ∈ keys s.prob.items ∧ x ≠ k) ∧
+    (∀ x, x ∈ keys s'.prot.items → x = k ∨ x ∈ keys s.prot.items) := by
+  obtain ⟨q', r0, e, hput, hqi, hqc, _⟩ := RawLru.put_total_inv s.prot k v ⟨h.ndq, h.bq⟩
+  have hk := RawLru.put_keys s.prot q' k v r0 e ⟨h.ndq, h.bq⟩ hput
+  unfold Slru.putProtected RawLru.remove at hp
+  cases hpf : find k s.prob.items with
+  | none =>
+    have hkp := (find_none_iff k _).1 hpf
+    simp only [hpf, hput] at hp
+    injection hp with hp; injection hp with _ hp; injection hp with hp _; subst hp
+    exact ⟨fun x hx => ⟨hx, fun hc => hkp (hc ▸ hx)⟩, hk.2⟩
+  | some old =>
+    simp only [hpf, hput] at hp
+    have key : s' = { prob := { s.prob with items := erase k s.prob.items }, prot := q' } := by
+      cases r0 <;> (simp only at hp; injection hp with hp; injection hp with _ hp; injection hp with hp _; exact hp.symm)
+    subst key
+    exact ⟨fun x hx => (mem_keys_erase k x _ h.ndp).1 hx, hk.2⟩
+
+theorem removeLruFromProtected_spec (s : Slru κ ν) (e : κ × ν) (hl : s.prot.items.getLast? = some e) :
+    s.removeLruFromProtected = ({ s with prot := { s.prot with items := s.prot.items.dropLast } }, some e) := by
+  simp [Slru.removeLruFromProtected, RawLru.removeLru, RawLru.removeLruIn, hl]
+
 theorem clone_eq (s : Slru κ ν) (h : s.Inv) : s.cloneImpl = .ok s := by
   unfold Slru.cloneImpl
   rw [RawLru.clone_eq s.prob ⟨h.ndp, h.bp⟩, RawLru.clone_eq s.prot ⟨h.ndq, h.bq⟩]
